@@ -15,6 +15,9 @@ BUILTIN_FEATS = ("uid", "x", "y", "idx")
 RES = [(1, 1), (0.5, 0.5), (2, 1), (1, 2), (1.5, 1), (0.5, 2), (3, 1), (1, 3), (2, 2), (0.25, 0.5), (1, 1.5)]
 # cell sizes of the near-integral float extents: (hi - lo) / r = k up to a few units in the last place
 NI_RES = [0.1, 0.2, 0.3, 0.7, 0.05, 1 / 3, 0.6, 1.1, 2.5, 60.0, 0.01, 0.5, 1.0, 100.0]
+# scripts creating the features v, w of one track ("-x" = removeAnalyticalFeature): final ranks (v, w) = (0,1) (1,0) (1,2) (0,2) (0,1) (0,1) (1,0) (0,1) (1,0)
+LAYOUTS = [None, ["w", "v"], ["aux", "v", "w"], ["v", "aux", "w"], ["tmp", "v", "-tmp", "w"], ["tmp", "v", "w", "-tmp"],
+           ["v", "w", "-v", "v"], ["v", "w", "-w", "w"], ["aux", "w", "v", "-aux"]]
 ENU_EPS = 1e-4          # ENUCoords.__eq__ calls two positions equal when they differ by less than this on every axis
 
 
@@ -31,6 +34,10 @@ def isnan(v):
 
 def fr(v):
     return Fraction(v)
+
+
+class BuildFailure(Exception):
+    """the harness could not build the objects of a case (tracks, features): not a verdict on the property"""
 
 
 class P(Prop):
@@ -55,6 +62,11 @@ class P(Prop):
         ("TracklibVerif.Props.C19", "TV.C19.rounded_cell_in_grid", "in FLOATING-POINT arithmetic (the same model at rationals with every operation rounded; any monotone rounding with relative error u that keeps the integers up to the grid size): on the grid the constructor computes, every point of the extent, borders included, whatever rounding did to extent / resolution, gets a cell 0<=col<ncol, 0<=line<nrow (no IndexError, no wrap-around through a negative index) whose footprint contains it up to the rounding allowance ((x - xmin)(1 -+ u)^2 between the cell's edges; + u nrow ry for the lines)"),
         ("TracklibVerif.Props.C19", "TV.C19.rounded_conservation", "conservation for floats: with any monotone rounding that keeps the integers up to the grid size (no error bound needed) the scatter never fails, every value lands in exactly one cell of the grid, sizes sum to the number of observations, any per-value weight is conserved"),
         ("TracklibVerif.Props.C19", "TV.C19.scatter_stops_at_outside", "the scatter loop meeting an observation outside the extent: the observations before it are in their cells, TypeError there, nothing after it is scattered (the partial state addCollectionToRaster leaves in a feature's grid)"),
+        ("TracklibVerif.Props.C19Layout", "TV.C19.add_collection_by_name", "addCollectionToRaster depends on the tracks only through their positions and their values BY NAME for the features of the bands (any scalar type, floats included; any raster state, failing calls included)"),
+        ("TracklibVerif.Props.C19Layout", "TV.C19.track_layout_sound", "a track whose features are built by ANY script of createAnalyticalFeature / removeAnalyticalFeature / setObsAnalyticalFeature calls on the concrete table (dictionary of ranks + Obs.features): what is read through the ranks is the table's content by name after the same script; one value per observation for every feature; no name twice"),
+        ("TracklibVerif.Props.C19Layout", "TV.C19.add_collection_layout_independent", "two collections whose tracks were built by different scripts (creation order, extra / temporary / re-created features) with the same content by name are scattered alike: same raster state, same outcome"),
+        ("TracklibVerif.Props.C19", "TV.C19.computed_bands_persist", "computeAggregates is the only call that writes into a band: after ANY other calls on a raster in any state (setNoDataValue with any value, any number of times; addAFMap; addCollectionToRaster; failing calls included) the geometry is the same, every band of before is still there, in place, with the very grid it held, the bands added since have new names, getAFMap(name) returns what it returned"),
+        ("TracklibVerif.Props.C19", "TV.C19.session_spec_after_setters", "session_spec read later: after its computeAggregates, then any calls other than computeAggregates (setNoDataValue to 0 / a count / a value a cell really holds, several times in a row; addAFMap), EVERY band it wrote still holds its operator over exactly the located values of T; a cell without value: 0 for count / sum, otherwise the no-data value the raster had AT that computeAggregates, not the current one"),
         ("TracklibVerif.Props.C19", "TV.C19.compute_failing_bands", "a failing computeAggregates: the bands before the first band that raises are rewritten, that band and the following ones are exactly as they were, nothing else of the raster changes"),
     ]
     partial = []
@@ -70,21 +82,27 @@ class P(Prop):
                 "the bands (AFMap.__init__ name / grid checks, addAFMap with and without grid, getNamesOfAFMap order), collectionValuesGrid (absent before the first collection), "
                 "addCollectionToRaster (features = band names up to '#', the dictionary REPLACED, AnalyticalFeatureError test after the replacement, scatter loop "
                 "track x feature x observation with Python list indexing, TypeError on an observation outside the grid leaving the partial scatter), computeAggregates (bands in "
-                "insertion order, IndexError / AttributeError / KeyError / NameError at the first cell of a band, NaN -> the raster's current no-data value, None included — fix 279f7b2), get/setNoDataValue; "
+                "insertion order, IndexError / AttributeError / KeyError / NameError at the first cell of a band, NaN -> the raster's current no-data value, None included — fix 279f7b2), get/setNoDataValue (the setter stores the value and touches no band), getAFMap(name) (getBand); "
                 "algo/summarising.py summarize (argument checks, bounding box, one addAFMap per (feature, operator) in call order via AFMap.getMeasureName, add, compute); "
-                "core/track.py hasAnalyticalFeature / getObsAnalyticalFeature for uid, x, y, idx and the track's own features; "
+                "core/track.py hasAnalyticalFeature / getObsAnalyticalFeature for uid, x, y, idx and the track's own features, read through the track's OWN dictionary of ranks: "
+                "the feature table of a track (Model/RasterLayout.lean on the table model of C01, Model/Features.lean: __analyticalFeaturesDico + Obs.features, createAnalyticalFeature(name, list), "
+                "removeAnalyticalFeature with its shift of the later ranks, setObsAnalyticalFeature) — a track that comes with a layout script is built by the driver on that table and the raster model reads it by rank; "
                 "core/utils.py co_count co_sum co_min co_max co_avg co_median; the collection's bounding box is modelled as min/max of the coordinates. "
                 "The geometry definitions (mkGrid, getCell, scatter) are also instantiated at rationals with every operation rounded (Lemmas/RasterRounded.lean: RQ rnd) for the floating-point theorems")
     trusted = ["math.floor / math.ceil / float.is_integer are taken as exact floor, ceiling and integrality of the float;",
                "the iteration order of the Python set of features in addCollectionToRaster is recomputed by the harness (same insertions, same process) and passed to the model; "
                "it only matters for the values left behind when the scatter raises;",
-               "a band name crosses the protocol as its '#'-separated parts"]
+               "a band name crosses the protocol as its '#'-separated parts;",
+               "the harness builds the tracks (Track / Obs / addObs, the feature script) with tracklib's own Track API: a failure there is reported as 'harness:build' "
+               "(a correspondence disagreement, no oracle verdict), the oracle reads the expected feature values from the case, never from the Track object"]
     rule = ("exhaustive: grids over [0,W]x[0,H] (W,H in 1..3) for every listed resolution, getCell of every half-integer lattice point in [-0.5,W+0.5]x[-0.5,H+0.5]; "
             "one-track collections (0,0),(2,2),p for every lattice p in [0,2]^2, every listed resolution; "
             "every north-south and east-west line of 1..4 observations (steps 0.5 and 1; 1 observation = a single fix) for every listed resolution, margins 0 and 0.25 "
             "(extent of zero width / height: one column / one row); "
             "every sequence of 1..5 calls from {addAFMap(v#co_count), addCollectionToRaster(c0), addCollectionToRaster(c1), computeAggregates} on ONE raster "
             "(thorough: 1..6 calls, addAFMap(w#co_median) too); "
+            "every sequence of 1..3 calls from {setNoDataValue(0), setNoDataValue(1), setNoDataValue(-99999.0), setNoDataValue(None), computeAggregates} on a raster whose bands "
+            "(v#co_count, v#co_min, w#co_sum, w#co_avg; cells holding genuine 0, 1, -1, -99999.0) have just been computed, constructor novalue in {default, 0, 1, None}; "
             "random: 1..3 tracks on a half-integer lattice (cell borders, outer border, corners; 1 in 4 collections lies on one vertical or horizontal line or at a single position), square and non-square resolutions, margins 0/0.125/0.25/0.5 at Rat "
             "and 0.05/0.1/0.3 at Float, random float coordinates at Float (1 in 6 on one line / at one position); two features v, w with NaN plus uid; "
             "ONE summarize call per case with several (feature, operator) pairs in a generated order (all six operators on v shuffled, or 2..4 operators on v "
@@ -93,10 +111,19 @@ class P(Prop):
             "SESSIONS on one Raster object (Rat lattice and Float): 2..3 collections over one study area (tracks with 0..5 observations, a track may lack w), the raster built on an explicit "
             "box / on collection 0's bounding box / returned by summarize() / on a box too small; templates reuse (bands, then add+compute for 2..3 collections), summ-reuse (another "
             "collection scattered on the raster summarize returned), late-band (bands added after a pass, for scattered and for new features), change (feature values rewritten between add and "
-            "compute and before a second add), two-rasters (two rasters from the SAME Bbox object), nodata (Raster(novalue=x | None), setNoDataValue before the bands / between add and compute / between two computes; 1 in 4 of the other sessions has its own novalue too), errors (compute before add, names taken / empty / without '#' / unknown operator, explicit "
+            "compute and before a second add), two-rasters (two rasters from the SAME Bbox object), nodata (Raster(novalue=x | None), setNoDataValue before the bands / between add and compute / between two computes; 1 in 4 of the other sessions has its own novalue too), remark (the no-data value changed AFTER computeAggregates / on the raster summarize() returned: 1..3 setNoDataValue calls in a row, then possibly addAFMap + setNoDataValue, "
+            "another computeAggregates + setNoDataValue, another collection; the constructor's novalue and the new values drawn from markers that COLLIDE with genuine aggregates: 0 (count / sum of every cell "
+            "without value), 1, 2, -1, values the feature takes, their sum, the uid, the default marker, None), errors (compute before add, names taken / empty / without '#' / unknown operator, explicit "
             "grids of right and wrong shape, observations outside), soup (3..9 random calls incl. summarize in scalar / callable / duplicated / ragged / empty argument forms, features x, y, idx); "
-            "after every call the whole object state (geometry, no-data, every band, collectionValuesGrid) is compared with the model; the oracle checks, after every well-formed "
+            "after every call the whole object state (geometry, no-data, every band, collectionValuesGrid) is compared with the model (the bands as a set of named grids: their order is not part of the property); the oracle checks, after every well-formed "
             "addCollectionToRaster, the footprint of every observation's cell and the values kept per cell, and after every computeAggregates EVERY band against the collection scattered LAST; "
+            "after every setNoDataValue / addAFMap that follows a validated computeAggregates or summarize the bands it wrote are read AGAIN: a cell with values holds its aggregate, a cell without "
+            "holds 0 for count / sum and, otherwise, the marker of the call that wrote the band or the raster's current one (the statement says 'the no-data value': both are accepted), counts still sum to the number of non-NaN values; "
+            "FEATURE LAYOUTS: the rank of a feature in Obs.features is per track; half of the generated collections (summarize cases of every stream and sessions) give every track its own "
+            "layout script — the features created in another order, an extra feature 'aux' created before / between them and kept, a temporary feature removed after others were created (their ranks move down), "
+            "a feature removed and created again (now the last one) — so that the summarised feature has different ranks on the tracks of one collection (about 1 collection in 4); filler values of the extra "
+            "columns are values no feature of the case takes (NaN 1 in 4); exhaustive: two tracks with every ordered pair of 9 scripts, as one summarize call and as calls on one raster; "
+            "sessions: delfeat (removeAnalyticalFeature on ONE track between / before the scatters, most of the time followed by a setfeat that re-creates it at the last rank); "
             "direct calls of the cell operators in sequence on ONE list (every ordered pair on fixed lists, random sequences), checking the values and that the list "
             "is left unchanged. "
             "NEAR-INTEGRAL FLOAT EXTENTS (Float): per axis a cell size from 14 values (0.1, 0.3, 1/3, 0.7, 60, ...), k = 1..6 cells, an origin (0.1, 0.2, -0.7, 1000.1, random, a multiple of the cell), "
@@ -132,8 +159,12 @@ class P(Prop):
         return ["getCell of every half-integer lattice point of [-0.5,W+0.5]x[-0.5,H+0.5] on the grids over [0,W]x[0,H], W,H in 1..3, for %d resolutions" % len(RES),
                 "collections {(0,0),(2,2),p}, p over the 25 half-integer lattice points of [0,2]^2, %d resolutions, margin 0" % len(RES),
                 "collections of 1..4 observations on one north-south or east-west line (steps 0.5 and 1), %d resolutions, margins 0 and 0.25" % len(RES),
+                "two tracks with the features v, w built by every ordered pair of %d layout scripts (creation order, an extra feature before / between, a temporary feature removed, "
+                "a feature removed and created again), as one summarize call and as addAFMap* / addCollectionToRaster / computeAggregates on one raster" % len(LAYOUTS),
                 "one summarize call with every ordered pair (30) and every ordered triple (120) of distinct operators on the same feature, fixed collection with NaN-free, mixed and all-NaN cells",
                 "every ordered pair (36, including the same operator twice) of cell operators called in sequence on one list, for 6 fixed lists",
+                "every sequence of 1..3 calls from {setNoDataValue(0), setNoDataValue(1), setNoDataValue(-99999.0), setNoDataValue(None), computeAggregates} after "
+                "addAFMap x 4, addCollectionToRaster, computeAggregates on a raster built with novalue default / 0 / 1 / None (620 sessions), the bands read again after every call",
                 "every sequence of 1..%d calls from {addAFMap(v#co_count), %saddCollectionToRaster(c0), addCollectionToRaster(c1), computeAggregates} on one raster over [0,2]^2 with unit cells (%d sessions), "
                 "the whole object state compared after every call" % ((5, "", 1364) if tier == "quick" else (6, "addAFMap(w#co_median), ", 19530))]
 
@@ -167,12 +198,26 @@ class P(Prop):
             for perm in itertools.permutations(OPS, k):
                 out.append({"kind": "sum-aggs-enum", "mode": "q", "tracks": fixed, "res": [1, 1], "margin": 0,
                             "aggs": [["v", o] for o in perm] + [["uid", "co_count"]]})
+        # two tracks of one collection, every ordered pair of feature layouts (same features, ranks that differ or not)
+        lay_aggs = [["v", o] for o in OPS] + [["w", "co_sum"], ["w", "co_count"], ["uid", "co_count"]]
+        for la in LAYOUTS:
+            for lb in LAYOUTS:
+                out.append({"kind": "sum-layout-enum", "mode": "q", "tracks": fixed, "res": [1, 1], "margin": 0, "aggs": lay_aggs,
+                            "layouts": [la, lb]})
+                colls = [[{"uid": i + 1, "pts": [[o[0], o[1]] for o in tr], "f": {"v": [o[2] for o in tr], "w": [o[3] for o in tr]}}
+                          for i, tr in enumerate(fixed)]]
+                for t, l in zip(colls[0], (la, lb)):
+                    if l is not None:
+                        t["layout"] = l
+                out.append({"kind": "session", "mode": "q", "tpl": "layout-enum", "colls": colls,
+                            "ops": [["new", {"of": 0}, [1, 1], 0, None]] + [["band", f + "#" + o] for f, o in lay_aggs] + [["add", 0], ["compute"]]})
         lists = [[1.0, 2.0, 3.0], [2.0, 1.0], [5.0], ["nan", 1.0, 2.0], ["nan"], []]
         for vals in lists:
             for a in OPS:
                 for b in OPS:
                     out.append({"kind": "op", "mode": "q", "vals": vals, "order": [a, b]})
         out += list(self.session_enum(tier))
+        out += list(self.remark_enum())
         nrand = 2500 if tier == "quick" else 40000
         for _ in range(nrand // 2):
             out.append(self.session(rng, "q"))
@@ -261,8 +306,8 @@ class P(Prop):
             ys.reverse()
         tracks[0].insert(rng.randrange(0, len(tracks[0]) + 1), [xs[0], ys[0], rng.choice([1.0, 2.5, "nan"]), 1.0])
         tracks[-1].insert(rng.randrange(0, len(tracks[-1]) + 1), [xs[1], ys[1], rng.choice([4.0, -3.5, "nan"]), rng.choice([2.0, "nan"])])
-        return {"kind": "sum-nearint", "mode": "f", "tracks": tracks, "res": [g["x"][2], g["y"][2]], "margin": g["mg"],
-                "aggs": self.rand_aggs(rng), "runs": 1}
+        return self.sum_layouts(rng, {"kind": "sum-nearint", "mode": "f", "tracks": tracks, "res": [g["x"][2], g["y"][2]], "margin": g["mg"],
+                                      "aggs": self.rand_aggs(rng), "runs": 1})
 
     def nearint_cell(self, rng):
         g = self.ni_geom(rng)
@@ -349,7 +394,7 @@ class P(Prop):
         for a in (["v", "co_sum"], ["uid", "co_count"]):
             if a not in aggs:
                 aggs.insert(rng.randrange(0, len(aggs) + 1), a)
-        return {"kind": "sum-micro-" + mode, "mode": mode, "tracks": tracks, "res": res, "margin": mg, "aggs": aggs, "runs": 1}
+        return self.sum_layouts(rng, {"kind": "sum-micro-" + mode, "mode": mode, "tracks": tracks, "res": res, "margin": mg, "aggs": aggs, "runs": 1})
 
     def values(self, rng, n):
         style = rng.choice(["plain", "nan", "allnan", "ties"])
@@ -383,8 +428,8 @@ class P(Prop):
         # ... except for 1 collection in 4: all observations on one north-south line, one east-west line, or at one position
         self.flatten(rng, tracks)
         margin = rng.choice([0, 0, 0.125, 0.25, 0.5]) if mode == "q" else rng.choice([0.05, 0.1, 0.1, 0.3])
-        return {"kind": "sum-lattice-" + mode, "mode": mode, "tracks": tracks, "res": list(rng.choice(RES)), "margin": margin,
-                "aggs": self.rand_aggs(rng), "runs": 2 if rng.random() < 0.2 else 1}
+        return self.sum_layouts(rng, {"kind": "sum-lattice-" + mode, "mode": mode, "tracks": tracks, "res": list(rng.choice(RES)), "margin": margin,
+                                      "aggs": self.rand_aggs(rng), "runs": 2 if rng.random() < 0.2 else 1})
 
     def rand_aggs(self, rng):
         """the (feature, operator) pairs of ONE summarize call, in call order"""
@@ -418,8 +463,8 @@ class P(Prop):
         if rng.random() < 2 / 3:
             self.flatten(rng, tracks)
         res = [sx / rng.choice([1, 2, 3, 4.5, 7]), sy / rng.choice([1, 2, 3, 4.5, 7])]
-        return {"kind": "sum-float", "mode": "f", "tracks": tracks, "res": res, "margin": rng.choice([0, 0.05, 0.1, 0.3]),
-                "aggs": self.rand_aggs(rng), "runs": 2 if rng.random() < 0.2 else 1}
+        return self.sum_layouts(rng, {"kind": "sum-float", "mode": "f", "tracks": tracks, "res": res, "margin": rng.choice([0, 0.05, 0.1, 0.3]),
+                                      "aggs": self.rand_aggs(rng), "runs": 2 if rng.random() < 0.2 else 1})
 
     def cellcase(self, rng):
         W, H = rng.randrange(1, 6), rng.randrange(1, 6)
@@ -444,6 +489,124 @@ class P(Prop):
                     o[0] = x0
                 if shape in ("hline", "point"):
                     o[1] = y0
+
+    # ---- feature layouts. The rank of an analytical feature in Obs.features is a PER-TRACK notion (Track.__analyticalFeaturesDico):
+    # tracks of one collection may hold the same features at different ranks (created in another order, an extra feature created
+    # earlier, a feature removed — the later ones move down —, a feature removed and created again — it moves to the end).
+    # A layout is the script that builds the features of ONE track: "name" = createAnalyticalFeature(name), "-name" =
+    # removeAnalyticalFeature(name); None = the features in the order of the case. Names that are not features of the case
+    # ("aux", "tmp") get filler values no feature of the case takes.
+    def rand_layout(self, rng, names):
+        names = list(names)
+        if not names:
+            return None
+        steps = list(names)
+        if rng.random() < 0.6:
+            steps.reverse() if len(steps) == 2 else rng.shuffle(steps)
+        r = rng.random()
+        if r < 0.3:                                                  # an extra feature created before some of them, and kept
+            steps.insert(rng.randrange(0, len(steps)), "aux")
+        elif r < 0.55:                                               # a temporary feature, removed after at least one more was created
+            i = rng.randrange(0, len(steps))
+            steps.insert(i, "tmp")
+            steps.insert(rng.randrange(i + 2, len(steps) + 1), "-tmp")
+        elif r < 0.75:                                               # a feature removed and created again: it is now the last one
+            n = rng.choice(names)
+            steps += ["-" + n, n]
+            if rng.random() < 0.3:
+                steps.append("aux")
+        return steps
+
+    def rand_layouts(self, rng, names_per_track):
+        """one layout per track of a collection: all default (half of the collections) or drawn independently per track"""
+        if rng.random() < 0.5:
+            return [None for _ in names_per_track]
+        return [self.rand_layout(rng, ns) if rng.random() < 0.7 else None for ns in names_per_track]
+
+    def layout_ranks(self, names, layout):
+        """name -> rank in Obs.features after the script (what Track.__analyticalFeaturesDico must hold)"""
+        present = []
+        for s in (layout if layout is not None else list(names)):
+            if s.startswith("-"):
+                if s[1:] in present:
+                    present.remove(s[1:])
+            elif s not in present:
+                present.append(s)
+        for n in names:
+            if n not in present:
+                present.append(n)
+        return {n: i for i, n in enumerate(present)}
+
+    def mixed_layouts(self, tracks):
+        """tracks: [(names, layout)]: some feature has a different rank on two tracks of the collection"""
+        seen = {}
+        for names, layout in tracks:
+            if not names:
+                continue
+            for n, i in self.layout_ranks(names, layout).items():
+                if seen.setdefault(n, i) != i:
+                    return True
+        return False
+
+    def filler(self, j, k):
+        return "nan" if (j + k) % 4 == 0 else -(1000.0 + 16 * j + k)
+
+    def script(self, f, layout, n):
+        """the calls that build the analytical features of one track of n observations, run on the real Track by make_feats and on
+        the model's feature table by the driver: ["create", name, vals] createAnalyticalFeature(name, vals) | ["remove", name]
+        removeAnalyticalFeature(name) | ["write", name, vals] setObsAnalyticalFeature(name, k, vals[k]) for every k.
+        The layout's steps first (filler values; steps that do not apply — a name already there, a remove of an absent name — are
+        skipped), then every feature of `f` gets its values: created now if the track lacks it, written otherwise."""
+        steps, present = [], []
+        if not n:
+            return steps
+        for j, s in enumerate(layout or []):
+            if s.startswith("-"):
+                if s[1:] in present:
+                    steps.append(["remove", s[1:]])
+                    present.remove(s[1:])
+            elif s and s not in present and s not in BUILTIN_FEATS + ("z", "t", "timestamp"):
+                steps.append(["create", s, [self.filler(j, k) for k in range(n)]])
+                present.append(s)
+        for name, vals in f.items():
+            steps.append(["write" if name in present else "create", name, list(vals)])
+            if name not in present:
+                present.append(name)
+        return steps
+
+    def full_layout(self, f, layout):
+        """the layout with the creations make_feats adds for the features of `f` it does not mention, made explicit"""
+        steps = list(layout or [])
+        present = []
+        for s in steps:
+            if s.startswith("-"):
+                if s[1:] in present:
+                    present.remove(s[1:])
+            elif s not in present:
+                present.append(s)
+        return steps + [n for n in f if n not in present]
+
+    def make_feats(self, t, f, layout):
+        """the analytical features of one Track object: the calls of script()"""
+        pv = lambda v: NAN if v == "nan" else v
+        for st in self.script(f, layout, t.size()):
+            if st[0] == "create":
+                t.createAnalyticalFeature(st[1], [pv(v) for v in st[2]])
+            elif st[0] == "remove":
+                t.removeAnalyticalFeature(st[1])
+            else:
+                for k, v in enumerate(st[2]):
+                    t.setObsAnalyticalFeature(st[1], k, pv(v))
+
+    def sum_layouts(self, rng, case):
+        """draw the per-track layouts of a summarize case (key "layouts", absent = all default)"""
+        names = [n for n in ("v", "w") if n in self.feats(case)]
+        if len(names) == 1 and rng.random() < 0.5:                   # a feature no aggregate asks for, next to the one summarised
+            names.append("w" if names[0] == "v" else "v")
+        ls = self.rand_layouts(rng, [names for _ in case["tracks"]])
+        if any(l is not None for l in ls):
+            case["layouts"] = ls
+        return case
 
     def all_obs(self, case):
         return [o for tr in case["tracks"] for o in tr]
@@ -491,6 +654,10 @@ class P(Prop):
             t["tracks"] = len(case["tracks"])
             t["extent"] = self.extent(case)
             t["has_nan"] = any(o[2] == "nan" for o in self.all_obs(case))
+            names = [n for n in ("v", "w") if n in self.feats(case)]
+            ls = case.get("layouts")
+            t["layouts"] = ("default" if not ls or all(l is None for l in ls) else
+                            "ranks-differ" if self.mixed_layouts([(names, l) for l in ls]) else "scripted, same ranks")
             ag = self.aggs(case)
             t["naggs"] = len(ag)
             t["runs"] = case.get("runs", 1)
@@ -511,6 +678,35 @@ class P(Prop):
 
     # ---------------------------------------------------------------- implementation
     def impl(self, case):
+        # Building the tracks of the case (Track / Obs / createAnalyticalFeature / removeAnalyticalFeature ...) is the harness's
+        # plumbing, not the code under this property: a failure there is reported as such ("harness:build": no oracle verdict,
+        # a correspondence disagreement), never as a violation of C19.
+        try:
+            return self.impl_checked(case)
+        except BuildFailure as e:
+            return {"err": "harness:build", "detail": str(e)[:300]}
+
+    def building(self, f, *a):
+        try:
+            return f(*a)
+        except BaseException as e:
+            if isinstance(e, KeyboardInterrupt):
+                raise
+            raise BuildFailure("%s: %r" % (getattr(f, "__name__", f), e))
+
+    def build_sum_tracks(self, case):
+        tracks = []
+        for uid, tr in enumerate(case["tracks"]):
+            t = self.Track([], uid + 1)
+            for k, o in enumerate(tr):
+                t.addObs(self.Obs(self.ENU(o[0], o[1], 0), self.T.readUnixTime(1000 + k)))
+            f = {name: [o[idx] for o in tr] for idx, name in ((2, "v"), (3, "w")) if name in self.feats(case)}
+            ls = case.get("layouts")
+            self.make_feats(t, f, ls[uid] if ls and uid < len(ls) else None)
+            tracks.append(t)
+        return self.TC(tracks), tracks
+
+    def impl_checked(self, case):
         if case["kind"] == "session":
             return self.impl_session(case)
         if case["kind"] == "cell":
@@ -525,18 +721,7 @@ class P(Prop):
             lst = [NAN if v == "nan" else v for v in case["vals"]]
             res = [self.opf[o](lst) for o in case["order"]]      # the SAME list object is handed to every operator
             return {"res": res, "after": list(lst)}
-        tracks = []
-        for uid, tr in enumerate(case["tracks"]):
-            t = self.Track([], uid + 1)
-            for k, o in enumerate(tr):
-                t.addObs(self.Obs(self.ENU(o[0], o[1], 0), self.T.readUnixTime(1000 + k)))
-            for idx, name in ((2, "v"), (3, "w")):
-                if name in self.feats(case):
-                    t.createAnalyticalFeature(name)
-                    for k, o in enumerate(tr):
-                        t.setObsAnalyticalFeature(name, k, NAN if o[idx] == "nan" else o[idx])
-            tracks.append(t)
-        col = self.TC(tracks)
+        col, tracks = self.building(self.build_sum_tracks, case)
         ag = self.aggs(case)
         out = None
         for run in range(case.get("runs", 1)):
@@ -584,6 +769,9 @@ class P(Prop):
         tracks = [{"uid": i + 1, "pts": [[o[0], o[1]] for o in tr],
                    "f": {n: [o[idx] for o in tr] for idx, n in ((2, "v"), (3, "w")) if n in feats}}
                   for i, tr in enumerate(case["tracks"])]
+        for t, l in zip(tracks, case.get("layouts") or []):
+            if l is not None:
+                t["layout"] = l
         ag = self.aggs(case)
         op = ["summarize", 0, [f for f, _ in ag], [o for _, o in ag], case["res"], case["margin"], "list"]
         return {"kind": "session", "mode": case["mode"], "colls": [tracks], "ops": [op] * case.get("runs", 1)}
@@ -623,10 +811,22 @@ class P(Prop):
         return out
 
     def compare(self, case, impl_out, model_out):
+        if impl_out.get("err") == "harness:build":
+            return "the harness could not build the case: %s" % impl_out.get("detail")
         if "err" in impl_out or "err" in model_out:
             if "err" in impl_out and "err" in model_out:
                 return None
             return "impl=%s model=%s" % (str(impl_out)[:300], str(model_out)[:300])
+        if case["kind"] == "session" and "steps" in impl_out and "steps" in model_out and len(impl_out["steps"]) == len(model_out["steps"]):
+            # the ORDER of the bands of a raster is not part of the property (the statement speaks of each cell's aggregates): a raster
+            # holding the same bands in another order than the model's (insertion order) agrees with it
+            impl_out, model_out = copy.deepcopy(impl_out), copy.deepcopy(model_out)
+            for a, b in zip(impl_out["steps"], model_out["steps"]):
+                sa, sb = a.get("snap"), b.get("snap")
+                if sa and sb and [n for n, _ in sa["bands"]] != [n for n, _ in sb["bands"]] and \
+                        sorted(n for n, _ in sa["bands"]) == sorted(n for n, _ in sb["bands"]):
+                    sa["bands"].sort(key=lambda nb: nb[0])
+                    sb["bands"].sort(key=lambda nb: nb[0])
         return Prop.compare(self, case, impl_out, model_out)
 
     # ---------------------------------------------------------------- oracle (transfer)
@@ -716,6 +916,8 @@ class P(Prop):
             return statistics.median(v)
 
     def spec(self, case, out):
+        if out.get("err") == "harness:build":
+            return None                                             # no verdict: the failure is in the construction of the inputs
         if "err" in out:
             return "raised %s (%s)" % (out["err"], out.get("detail"))
         if case["kind"] == "session":
@@ -827,9 +1029,22 @@ class P(Prop):
             for i in range(len(ag)):
                 yield dict(case, aggs=ag[:i] + ag[i + 1:])
         tr = case["tracks"]
+        ls = case.get("layouts")
+        if ls:
+            yield {k: v for k, v in case.items() if k != "layouts"}
+            ls = (list(ls) + [None] * len(tr))[:len(tr)]
         if len(tr) > 1:
             for i in range(len(tr)):
-                yield dict(case, tracks=tr[:i] + tr[i + 1:])
+                c = dict(case, tracks=tr[:i] + tr[i + 1:])
+                if ls:
+                    c["layouts"] = ls[:i] + ls[i + 1:]
+                yield c
+        if ls:
+            for i, l in enumerate(ls):
+                if l is not None:
+                    yield dict(case, layouts=ls[:i] + [None] + ls[i + 1:])
+                    for j in range(len(l)):
+                        yield dict(case, layouts=ls[:i] + [l[:j] + l[j + 1:]] + ls[i + 1:])
         for i in range(len(tr)):
             if len(tr[i]) > 1:
                 for k in range(len(tr[i])):
@@ -838,13 +1053,40 @@ class P(Prop):
             yield dict(case, margin=0)
 
     def mutate(self, case, rng):
+        # the same case with other feature layouts on its tracks
+        if case["kind"].startswith("sum"):
+            for _ in range(4):
+                c = {k: v for k, v in copy.deepcopy(case).items() if k != "layouts"}
+                c["layouts"] = [self.rand_layout(rng, ["v", "w"]) if rng.random() < 0.7 else None for _ in c["tracks"]]
+                yield c
+        elif case["kind"] == "session":
+            for _ in range(4):
+                c = copy.deepcopy(case)
+                for col in c["colls"]:
+                    for t in col:
+                        t.pop("layout", None)
+                        if t["pts"] and t["f"] and rng.random() < 0.7:
+                            t["layout"] = self.rand_layout(rng, list(t["f"]))
+                yield c
+            yield from self.remark_variants(case, rng)
         for _ in range(10):
             yield self.lattice(rng, "q")
         for _ in range(10):
             yield self.session(rng, "q")
         for _ in range(6):
+            yield self.session(rng, rng.choice(["q", "q", "f"]), tpl="remark")
+        for _ in range(6):
             yield self.nearint(rng)
             yield self.micro(rng, rng.choice(["q", "f"]))
+
+    def search_cases(self, rng):
+        """failing-input search: the call sequences that read the bands again after setNoDataValue first, then the thorough generator"""
+        out = list(self.remark_enum())
+        for _ in range(400):
+            out.append(self.session(rng, rng.choice(["q", "q", "f"]), tpl="remark"))
+        for _ in range(200):
+            out.append(self.session(rng, "q", tpl="nodata"))
+        return out + list(self.cases(rng, "thorough"))
 
     # ================================================================ sessions: sequences of calls on ONE raster object
     # case: {"kind": "session", "mode": q|f, "colls": [[{"uid", "pts": [[x, y]..], "f": {name: [values]}}..]..], "ops": [..]}
@@ -852,7 +1094,9 @@ class P(Prop):
     #       ["summarize", k, [features], [operator names], [rx, ry], margin, form]         the result becomes the current raster
     #       ["band", name] | ["band", name, grid]                                           addAFMap
     #       ["add", k]   ["compute"]   ["nodata", v]                                        addCollectionToRaster / computeAggregates / setNoDataValue
-    #       ["setfeat", k, track, name, [values]]                                           the feature is (re)written on the Track object
+    #       ["setfeat", k, track, name, [values]]                                           the feature is (re)written on the Track object (created, as the last one, when the track lacks it)
+    #       ["delfeat", k, track, name]                                                     Track.removeAnalyticalFeature: the later features of that track move down one rank
+    # a track may carry "layout": the script that creates its features (see rand_layout); absent = the features of "f" in order
     def skey(self, case):
         return json.dumps(case, sort_keys=True)
 
@@ -875,10 +1119,7 @@ class P(Prop):
             t = self.Track([], tr["uid"])
             for k, p in enumerate(tr["pts"]):
                 t.addObs(self.Obs(self.ENU(p[0], p[1], 0), self.T.readUnixTime(1000 + k)))
-            for name, vals in tr["f"].items():
-                t.createAnalyticalFeature(name)
-                for k, v in enumerate(vals):
-                    t.setObsAnalyticalFeature(name, k, NAN if v == "nan" else v)
+            self.make_feats(t, tr["f"], tr.get("layout"))
             out.append(t)
         return self.TC(out), out
 
@@ -903,7 +1144,13 @@ class P(Prop):
             bands.append([name if (r.getAFMap(idx) is m and m.getName() == name) else name + " (getAFMap by index / getName differ)", grid])
         vals = None
         if hasattr(r, "collectionValuesGrid"):
-            vals = {af: [[[self.num(v) for v in cell] for cell in row] for row in grid] for af, grid in r.collectionValuesGrid.items()}
+            # an INTERNAL structure (the property's observation points are the bands and getCell): read as documented
+            # (feature -> rows -> cells -> values); when it cannot be read that way the harness says so and the oracle gives no
+            # verdict on it (the model comparison still reports the difference)
+            try:
+                vals = {af: [[[self.num(v) for v in cell] for cell in row] for row in grid] for af, grid in r.collectionValuesGrid.items()}
+            except Exception as e:
+                vals = "unreadable (%s)" % type(e).__name__
         return {"geo": [r.xmin, r.xmax, r.ymin, r.ymax, r.ncol, r.nrow], "nodata": r.getNoDataValue(), "bands": bands, "values": vals}
 
     def obs_cells(self, r, tracks):
@@ -937,7 +1184,8 @@ class P(Prop):
         return self.summarize(col, a, fs, tuple(res), mg)
 
     def impl_session(self, case):
-        built = [self.build_coll(c) for c in case["colls"]]
+        built = [self.building(self.build_coll, c) for c in case["colls"]]
+        have = [[set(t["f"]) for t in c] for c in case["colls"]]     # the harness's own record of which features a track holds
         r, steps, names_at = None, [], {}
         boxes = {}                                                  # one Bbox OBJECT per box value: rasters of a session share it
         for i, op in enumerate(case["ops"]):
@@ -945,10 +1193,18 @@ class P(Prop):
             if kind == "setfeat":
                 _, k, ti, name, vals = op
                 t = built[k][1][ti]
-                if name not in t.getListAnalyticalFeatures():
-                    t.createAnalyticalFeature(name)
+                if name not in have[k][ti]:
+                    self.building(t.createAnalyticalFeature, name)
+                    have[k][ti].add(name)
                 for j, v in enumerate(vals):
-                    t.setObsAnalyticalFeature(name, j, NAN if v == "nan" else v)
+                    self.building(t.setObsAnalyticalFeature, name, j, NAN if v == "nan" else v)
+                steps.append({"out": "py", "snap": None, "cells": None})
+                continue
+            if kind == "delfeat":
+                _, k, ti, name = op
+                if name in have[k][ti]:
+                    self.building(built[k][1][ti].removeAnalyticalFeature, name)
+                    have[k][ti].discard(name)
                 steps.append({"out": "py", "snap": None, "cells": None})
                 continue
             try:
@@ -1013,13 +1269,31 @@ class P(Prop):
     def enc_tracks(self, e, tracks):
         out = []
         for t in tracks:
+            head = "%s@%s@%s" % (e(t["uid"]), tok_list(e(p[0]) for p in t["pts"]), tok_list(e(p[1]) for p in t["pts"]))
+            if t.get("layout") is not None and t["pts"]:
+                # the features are built by the model of the Track's feature table (Model/RasterLayout.lean) from the same script
+                sc = tok_list(("-" + st[1] if st[0] == "remove" else
+                               "%s%s=%s" % ("+" if st[0] == "create" else "~", st[1], tok_list(e(v) for v in st[2]))
+                               for st in self.script(t["f"], t["layout"], len(t["pts"]))), "&")
+                out.append("%s@_@%s" % (head, sc))
+                continue
             fs = tok_list(("%s=%s" % (n, tok_list(e(v) for v in vs)) for n, vs in t["f"].items()), "&")
-            out.append("%s@%s@%s@%s" % (e(t["uid"]), tok_list(e(p[0]) for p in t["pts"]), tok_list(e(p[1]) for p in t["pts"]), fs))
+            out.append("%s@%s" % (head, fs))
         return tok_list(out, "|")
 
     def apply_setfeat(self, colls, op):
+        """setfeat / delfeat on the harness's description of the track: the values by name, and the layout script extended by the
+        call made on the Track object (a removal; the creation of a feature the track lacks)"""
+        t = colls[op[1]][op[2]]
+        if op[0] == "delfeat":
+            if op[3] in t["f"]:
+                t["layout"] = self.full_layout(t["f"], t.get("layout")) + ["-" + op[3]]
+                t["f"].pop(op[3])
+            return
         _, k, ti, name, vals = op
-        colls[k][ti]["f"][name] = list(vals)
+        if name not in t["f"]:
+            t["layout"] = self.full_layout(t["f"], t.get("layout")) + [name]
+        t["f"][name] = list(vals)
 
     def requests_session(self, case):
         e = self.enc(case)
@@ -1028,7 +1302,7 @@ class P(Prop):
         names, toks = [], []
         for i, op in enumerate(case["ops"]):
             kind = op[0]
-            if kind == "setfeat":
+            if kind in ("setfeat", "delfeat"):
                 self.apply_setfeat(colls, op)
             elif kind == "new":
                 _, box, res, mg, nd = op
@@ -1064,7 +1338,7 @@ class P(Prop):
         it = iter(replies[0].split(" "))
         steps = []
         for op in case["ops"]:
-            if op[0] == "setfeat":
+            if op[0] in ("setfeat", "delfeat"):
                 steps.append({"out": "py", "snap": None, "cells": None})
                 continue
             w = next(it).split("!")
@@ -1099,12 +1373,21 @@ class P(Prop):
             m.setdefault((c[1], c[0]), []).append(NAN if v == "nan" else float(v))
         return m, vals
 
-    def check_bands(self, geo, nodata, bands, tracks, cells, afs):
-        """every band whose name is <feature>#<one of the six operators> against the values located in each cell"""
+    def same_marker(self, got, want):
+        if want is None or got is None:
+            return got is None and want is None
+        return isinstance(got, (int, float)) and not isinstance(got, bool) and not isnan(got) and close(got, want, 1e-9)
+
+    def check_bands(self, geo, nodata, bands, tracks, cells, afs, also=(), only=None):
+        """every band whose name is <feature>#<one of the six operators> against the values located in each cell.
+        also: further no-data markers accepted in a cell WITHOUT a non-NaN value (min / max / mean / median only: count and sum hold 0
+        there) — used when the bands are read again after setNoDataValue: the statement says "the no-data value", the marker of the
+        call that wrote the band and the raster's current one both qualify; a cell WITH values never holds a marker.
+        only: the band names to look at (default: all)"""
         ncol, nrow = geo[4], geo[5]
         for name, g in bands:
             p = name.split("#")
-            if len(p) < 2 or p[1] not in OPS or p[0] not in afs:
+            if len(p) < 2 or p[1] not in OPS or p[0] not in afs or (only is not None and name not in only):
                 continue
             f, o = p[0], p[1]
             if g == "E" or len(g) != nrow or any(len(row) != ncol for row in g):
@@ -1124,16 +1407,18 @@ class P(Prop):
                         bad = got is not None
                     else:
                         bad = not isinstance(got, (int, float)) or isnan(got) or not close(got, want, 1e-9)
+                    if bad and also and o not in ("co_count", "co_sum") and not any(not isnan(v) for v in here):
+                        bad = not any(self.same_marker(got, m) for m in also)
                     if bad:
-                        return "%s[line %d][col %d] = %r, the values located there %s give %r (the raster's no-data value is %r)" % (
-                            name, l, c, got, here, want, nodata)
+                        return "%s[line %d][col %d] = %r, the values located there %s give %r (the raster's no-data value is %r%s)" % (
+                            name, l, c, got, here, want, nodata, "".join(", or %r" % (m,) for m in also))
         return None
 
     def check_values(self, geo, values, tracks, cells, afs):
         """collectionValuesGrid: per feature, every cell holds exactly the values of the observations located in it"""
         ncol, nrow = geo[4], geo[5]
-        if values is None:
-            return None                                             # no collectionValuesGrid attribute to look at: the bands are what counts
+        if values is None or not isinstance(values, dict):
+            return None                                             # no collectionValuesGrid (or not in the documented form) to look at: the bands are what counts
         if sorted(values) != sorted(afs):
             return "values are kept for the features %s, the bands need %s" % (sorted(values), sorted(afs))
         for f in afs:
@@ -1151,6 +1436,16 @@ class P(Prop):
                         return "values of %s kept in [line %d][col %d] = %s, the observations located there have %s" % (f, l, c, got, members.get((l, c), []))
         return None
 
+    def recheck_bands(self, geo, snap, done):
+        """the bands written by the last computeAggregates / summarize, read again after a call that is not meant to touch them"""
+        if done is None:
+            return None
+        m = self.check_bands(geo, done["nodata"], snap["bands"], done["tracks"], done["cells"], done["afs"],
+                             also=(done["nodata"], snap["nodata"]), only=done["names"])
+        if m:
+            return "(bands written by the last computeAggregates, read again after this call) " + m
+        return None
+
     def check_extent(self, box, mg, geo):
         wx, wy = box[1] - box[0], box[3] - box[2]
         for name, got, want, w in (("xmin", geo[0], box[0] - mg * wx, wx), ("xmax", geo[1], box[1] + mg * wx, wx),
@@ -1166,10 +1461,14 @@ class P(Prop):
             return "%d outcomes for %d calls" % (len(steps), len(case["ops"]))
         cur = None      # ghost of the current raster: {"res", "bands": names accepted so far}
         last = None     # what the last successful addCollectionToRaster scattered: {"k", "tracks" (as they were), "cells", "afs"}
+        done = None     # what the last successful computeAggregates / summarize wrote, as the oracle validated it: {"names": the bands
+                        # <feature>#<operator> it checked, "tracks", "cells", "afs", "nodata": the raster's marker at that call}; it stays
+                        # valid while the raster is only given other bands / another no-data value (addAFMap, setNoDataValue): the bands
+                        # are read AGAIN after each of those calls
         for i, (op, st) in enumerate(zip(case["ops"], steps)):
             kind, outc, snap = op[0], st["out"], st["snap"]
             where = "call %d %s: " % (i, json.dumps(op)[:120])
-            if kind == "setfeat":
+            if kind in ("setfeat", "delfeat"):
                 self.apply_setfeat(colls, op)
                 continue
             if kind == "new":
@@ -1180,9 +1479,12 @@ class P(Prop):
                 m = self.check_extent(b, mg, snap["geo"])
                 if m:
                     return where + m
-                if snap["bands"] or snap["values"] is not None:
+                # a new raster holds no band and no value of an observation (an empty collectionValuesGrid created by the
+                # constructor would be an internal choice, not a failure)
+                held = isinstance(snap["values"], dict) and any(cell for g in snap["values"].values() for row in g for cell in row)
+                if snap["bands"] or held:
                     return where + "a new raster has bands %s / values %s" % (snap["bands"], snap["values"])
-                cur, last = {"res": res, "bands": []}, None
+                cur, last, done = {"res": res, "bands": []}, None, None
                 continue
             if kind == "summarize":
                 _, k, afs, ops, res, mg, form = op
@@ -1191,7 +1493,7 @@ class P(Prop):
                 legit = (len(afs) > 0 and len(afs) == len(ops) and len(tracks) > 0 and all(t["pts"] for t in tracks)
                          and len(set(names)) == len(names) and all(o in OPS for o in ops) and all(a for a in afs)
                          and all(self.s_featvals(t, a) is not None for t in tracks for a in afs))
-                cur, last = None, None
+                cur, last, done = None, None, None
                 if not legit:
                     if outc == "ok" and snap is not None:
                         cur = {"res": res, "bands": [n for n, _ in snap["bands"]]}
@@ -1219,8 +1521,10 @@ class P(Prop):
                     return where + m
                 cur = {"res": res, "bands": list(names)}
                 last = {"k": k, "tracks": copy.deepcopy(tracks), "cells": loc, "afs": afs_set}
+                done = {"names": list(names), "tracks": last["tracks"], "cells": loc, "afs": afs_set, "nodata": snap["nodata"]}
                 continue
             if cur is None or snap is None:
+                done = None
                 if snap is not None:
                     cur, last = {"res": None, "bands": [n for n, _ in snap["bands"]]}, None
                 continue                                            # no raster the oracle knows about: nothing is demanded
@@ -1235,10 +1539,18 @@ class P(Prop):
                     if name not in [n for n, _ in snap["bands"]]:
                         return where + "band %r is not listed after addAFMap: %s" % (name, [n for n, _ in snap["bands"]])
                     cur["bands"].append(name)
+                    m = self.recheck_bands(geo, snap, done)
+                    if m:
+                        return where + m
                 continue
             if kind == "nodata":
                 if outc != "ok" or snap["nodata"] != self.pyval(op[1]):
                     return where + "no-data value %r after setNoDataValue(%r) (%s)" % (snap["nodata"], op[1], outc)
+                # the no-data value is a marker for the cells WITHOUT value: changing it leaves every aggregate of a cell with values,
+                # and the 0 of count / sum in the others, as they are (whatever they are equal to — the old marker included)
+                m = self.recheck_bands(geo, snap, done)
+                if m:
+                    return where + m
                 continue
             if kind == "add":
                 tracks = colls[op[1]]
@@ -1246,6 +1558,7 @@ class P(Prop):
                 obs = [p for t in tracks for p in t["pts"]]
                 legit = (cur["res"] is not None and all(self.s_featvals(t, a) is not None for t in tracks for a in afs)
                          and all(geo[0] <= p[0] <= geo[1] and geo[2] <= p[1] <= geo[3] for p in obs))
+                done = None                                         # the bands now describe a collection that is no longer the one on the raster
                 if not legit or outc != "ok":
                     last = None
                     if legit:
@@ -1269,16 +1582,20 @@ class P(Prop):
                 legit = last is not None and wf and all(n.split("#")[0] in last["afs"] for n in cur["bands"])
                 if legit and outc != "ok":
                     return where + "computeAggregates after a successful addCollectionToRaster, every band <feature>#<operator>, raised %s" % outc
+                done = None
                 if outc == "ok" and last is not None:
                     # the bands describe the collection LAST scattered on the raster (values as they were then; a raster that
                     # would read them at computeAggregates time is accepted too)
+                    used = last["tracks"]
                     m = self.check_bands(geo, snap["nodata"], snap["bands"], last["tracks"], last["cells"], last["afs"])
                     if m and colls[last["k"]] != last["tracks"] and all(
                             self.s_featvals(t, a) is not None for t in colls[last["k"]] for a in last["afs"]):
                         if self.check_bands(geo, snap["nodata"], snap["bands"], colls[last["k"]], last["cells"], last["afs"]) is None:
-                            m = None
+                            m, used = None, copy.deepcopy(colls[last["k"]])
                     if m:
                         return where + "(bands after computeAggregates, collection %d scattered last) " % last["k"] + m
+                    done = {"names": [n for n, g in snap["bands"] if g != "E"], "tracks": used, "cells": last["cells"], "afs": last["afs"],
+                            "nodata": snap["nodata"]}
                 continue
         return None
 
@@ -1304,6 +1621,9 @@ class P(Prop):
                 if not (lack_w and i == 0):
                     f["w"] = self.values(rng, n)
             tracks.append({"uid": uid0 + i, "pts": pts(n), "f": f})
+        for t, l in zip(tracks, self.rand_layouts(rng, [list(t["f"]) for t in tracks])):
+            if l is not None:
+                t["layout"] = l
         return tracks
 
     def s_band(self, rng, odd=0.12):
@@ -1345,7 +1665,7 @@ class P(Prop):
             if tpl != "summ-reuse":                                    # the raster is built on the study area itself
                 mg = rng.choice([0, 0, mg])
             pts = lambda n: self.walk(rng, mode, [ox, x1, oy, y1], res, mg, n) if n else []
-        tpl = tpl or rng.choice(["reuse", "reuse", "reuse", "summ-reuse", "summ-reuse", "late-band", "change", "errors", "soup", "soup", "two-rasters", "nodata", "nodata"])
+        tpl = tpl or rng.choice(["reuse", "reuse", "reuse", "summ-reuse", "summ-reuse", "late-band", "change", "errors", "soup", "soup", "two-rasters", "nodata", "nodata", "remark", "remark"])
         ncoll = rng.randrange(2, 4)
         colls = [self.s_coll(rng, mode, pts, 1 + 10 * k, empty_ok=(k > 0)) for k in range(ncoll)]
         # collection 0 has no empty track and spans the study area: a raster built on its bounding box contains the others
@@ -1382,6 +1702,18 @@ class P(Prop):
                 return None
             ti = rng.choice(cand)
             return ["setfeat", k, ti, rng.choice(["v", "v", "w"]), self.values(rng, len(colls[k][ti]["pts"]))]
+        def delfeat(k=None):
+            """a feature removed from ONE track (the later ones move down a rank), most of the time created again (now the last one)"""
+            k = pick() if k is None else k
+            cand = [i for i, t in enumerate(colls[k]) if t["pts"]]
+            if not cand:
+                return []
+            ti = rng.choice(cand)
+            name = rng.choice(["v", "v", "w"])
+            out = [["delfeat", k, ti, name]]
+            if rng.random() < 0.75:
+                out.append(["setfeat", k, ti, name, self.values(rng, len(colls[k][ti]["pts"]))])
+            return out
         def summ(k=None):
             ag = self.rand_aggs(rng)
             afs, opn = [a for a, _ in ag], [o for _, o in ag]
@@ -1417,6 +1749,12 @@ class P(Prop):
                 ops += [nodata(), ["compute"]]
             if rng.random() < 0.5:
                 ops += [["add", pick()]] + ([nodata()] if rng.random() < 0.5 else []) + [["band", self.s_band(rng, 0.0)], ["compute"]]
+        elif tpl == "remark":
+            # the no-data value changed AFTER the bands were computed (once, several times in a row, again after another pass), with
+            # markers that collide with genuine aggregates: 0 (the count / sum of every cell without value), small counts, -1, values
+            # the features take, the uid (min / max / mean / median of a uid band), the default marker, None
+            k = pick()
+            ops = self.remark_ops(rng, colls, k, new, res, mg, summ)
         elif tpl == "summ-reuse":
             ops = [summ(0)]
             for _ in range(rng.randrange(1, 3)):
@@ -1429,8 +1767,14 @@ class P(Prop):
                 ops += [["add", pick()], ["band", self.s_band(rng, 0.05)], ["compute"]]
         elif tpl == "change":
             k = pick()
-            ops = [new] + bands + [["add", k]]
+            ops = [new] + bands
+            if rng.random() < 0.3:                                   # before the first scatter: the tracks of k no longer share one layout
+                ops += delfeat(k)
+            ops.append(["add", k])
             for _ in range(rng.randrange(1, 3)):
+                if rng.random() < 0.3:
+                    ops += delfeat(k)
+                    continue
                 sf = setfeat()
                 if sf:
                     ops.append(sf)
@@ -1456,15 +1800,87 @@ class P(Prop):
                     ops.append(["add", pick()])
                 elif r < 0.8:
                     ops.append(["compute"])
-                elif r < 0.9:
+                elif r < 0.87:
                     sf = setfeat()
                     if sf:
                         ops.append(sf)
+                elif r < 0.9:
+                    ops += delfeat()
                 elif r < 0.95:
                     ops.append(summ())
                 else:
                     ops.append(nodata())
         return {"kind": "session", "mode": mode, "tpl": tpl, "colls": colls, "ops": ops}
+
+    def collide_pool(self, tracks):
+        """no-data markers that coincide with aggregates a raster of these tracks can hold"""
+        vs = [v for t in tracks for v in t["f"].get("v", []) if v != "nan"]
+        pool = [0.0, 0.0, 0.0, -1.0, -1.0, 1.0, 2.0, NO_DATA, "None"]
+        pool += [float(t["uid"]) for t in tracks[:1]]
+        pool += vs[:2] + ([math.fsum(vs)] if vs else [])
+        return pool
+
+    def remark_ops(self, rng, colls, k, new, res, mg, summ):
+        pool = self.collide_pool(colls[k])
+        mark = lambda: ["nodata", rng.choice(pool)]
+        if rng.random() < 0.35:
+            head = [summ(k)]                                         # the raster summarize() returns (marker NO_DATA_VALUE)
+        else:
+            new = list(new)
+            if rng.random() < 0.7:
+                new[4] = rng.choice(pool)
+            names = ["v#co_count", "v#co_sum"] + rng.sample(["v#co_min", "v#co_max", "v#co_avg", "v#co_median", "uid#co_min", "uid#co_count",
+                                                               "w#co_sum", "w#co_max", "x#co_min", "idx#co_sum"], rng.randrange(1, 4))
+            rng.shuffle(names)
+            names = names[:rng.randrange(2, len(names) + 1)]
+            head = [new] + [["band", n] for n in names] + [["add", k]] + ([mark()] if rng.random() < 0.2 else []) + [["compute"]]
+        ops = head + [mark() for _ in range(rng.randrange(1, 4))]
+        r = rng.random()
+        if r < 0.3:
+            ops += [["band", self.s_band(rng, 0.0)], mark()]
+        elif r < 0.6:
+            ops += [["compute"]] + [mark() for _ in range(rng.randrange(1, 3))]
+        elif r < 0.75:
+            ops += [["add", rng.randrange(0, len(colls))], ["compute"], mark()]
+        return ops
+
+    def remark_enum(self):
+        """every sequence of 1..3 calls from {setNoDataValue(0), setNoDataValue(1), setNoDataValue(-99999.0), setNoDataValue(None),
+        computeAggregates} on a raster whose bands have just been computed, for the constructor's novalue in {default, 0, 1, None}"""
+        c0 = [{"uid": 1, "pts": [[0, 0], [0.5, 0.5], [2, 2]], "f": {"v": [1.0, "nan", 0.0], "w": [2.0, -1.0, "nan"]}},
+              {"uid": 2, "pts": [[1.5, 0.5]], "f": {"v": [-99999.0], "w": [1.0]}}]
+        alpha = [["nodata", 0.0], ["nodata", 1.0], ["nodata", NO_DATA], ["nodata", "None"], ["compute"]]
+        for nov in (None, 0.0, 1.0, "None"):
+            head = [["new", [0, 2, 0, 2], [1, 1], 0, nov], ["band", "v#co_count"], ["band", "v#co_min"], ["band", "w#co_sum"], ["band", "w#co_avg"],
+                    ["add", 0], ["compute"]]
+            for n in (1, 2, 3):
+                for seq in itertools.product(alpha, repeat=n):
+                    yield {"kind": "session", "mode": "q", "tpl": "remark-enum", "colls": [c0], "ops": head + [list(o) for o in seq]}
+
+    def remark_variants(self, case, rng):
+        """neighbours of a session: setNoDataValue calls with colliding markers inserted after a computeAggregates / summarize"""
+        ops = case["ops"]
+        at = [i for i, o in enumerate(ops) if o[0] in ("compute", "summarize")]
+        if not at:
+            return
+        pool = self.collide_pool([t for c in case["colls"] for t in c])
+        for _ in range(4):
+            i = rng.choice(at)
+            ins = [["nodata", rng.choice(pool)] for _ in range(rng.randrange(1, 3))]
+            c = copy.deepcopy(case)
+            c["ops"] = ops[:i + 1] + ins + ops[i + 1:]
+            c["tpl"] = "remark-mut"
+            yield c
+        # ... and the constructor's own marker replaced by a colliding one
+        for j, o in enumerate(ops):
+            if o[0] == "new":
+                c = copy.deepcopy(case)
+                c["ops"][j][4] = rng.choice([0.0, -1.0, 1.0])
+                i = rng.choice([a for a in at if a > j] or at)
+                c["ops"] = c["ops"][:i + 1] + [["nodata", rng.choice(pool)]] + c["ops"][i + 1:]
+                c["tpl"] = "remark-mut"
+                yield c
+                break
 
     def session_enum(self, tier):
         """every sequence of calls from a small alphabet on a raster over [0,2]^2 with unit cells:
@@ -1487,7 +1903,10 @@ class P(Prop):
         adds = [o[1] for o in case["ops"] if o[0] == "add"]
         return {"kind": "session-" + case["mode"], "tpl": case.get("tpl", "?"), "calls": min(len(ops), 12),
                 "adds": len(adds) + ops.count("summarize"), "computes": ops.count("compute"),
-                "collections_added": len(set(adds)), "first": ops[0]}
+                "collections_added": len(set(adds)), "first": ops[0],
+                "layouts": ("ranks-differ" if any(self.mixed_layouts([(list(t["f"]), t.get("layout")) for t in c]) for c in case["colls"])
+                            else "scripted, same ranks" if any(t.get("layout") is not None for c in case["colls"] for t in c) else "default"),
+                "delfeat": "delfeat" in ops}
 
     def nontrivial_session(self, case):
         """a collection is scattered on a raster that already held another one's values, or is aggregated at all"""
@@ -1498,7 +1917,7 @@ class P(Prop):
         ops = case["ops"]
         for i in range(len(ops) - 1, 0, -1):
             yield dict(case, ops=ops[:i] + ops[i + 1:])
-        touched = {o[1] for o in ops if o[0] == "setfeat"}
+        touched = {o[1] for o in ops if o[0] in ("setfeat", "delfeat")}
         for k, col in enumerate(case["colls"]):
             if k in touched:
                 continue
@@ -1508,8 +1927,13 @@ class P(Prop):
             for ti, t in enumerate(col):
                 if len(t["pts"]) > 1:
                     for j in range(len(t["pts"])):
-                        t2 = {"uid": t["uid"], "pts": t["pts"][:j] + t["pts"][j + 1:], "f": {n: v[:j] + v[j + 1:] for n, v in t["f"].items()}}
+                        t2 = dict(t, pts=t["pts"][:j] + t["pts"][j + 1:], f={n: v[:j] + v[j + 1:] for n, v in t["f"].items()})
                         yield dict(case, colls=case["colls"][:k] + [col[:ti] + [t2] + col[ti + 1:]] + case["colls"][k + 1:])
+        for k, col in enumerate(case["colls"]):
+            for ti, t in enumerate(col):
+                if t.get("layout") is not None:
+                    t2 = {a: b for a, b in t.items() if a != "layout"}
+                    yield dict(case, colls=case["colls"][:k] + [col[:ti] + [t2] + col[ti + 1:]] + case["colls"][k + 1:])
 
 
 # ---- tie to the source by translation (tools/py2lean.py -> lean/TracklibVerif/Gen/Raster.lean, regenerated on every run)
